@@ -135,3 +135,12 @@ def overlap(ctx):
                         {"shape": shape, "width": w, "scheduler": scheduler})
                 if mx > w:
                     ctx.fail("plan:too-many-in-flight", "%d in flight with max_workers=%d" % (mx, w), {"width": w})
+
+
+_run_before_api = run
+
+
+def run(ctx):
+    _run_before_api(ctx)
+    import api_corr
+    api_corr.run_api_corr(ctx)
